@@ -24,7 +24,7 @@ impl Check for GrowthCheck {
         "C18"
     }
     fn budget(&self, tier: &str) -> usize {
-        if tier == "thorough" { 8_000 } else { 400 }
+        if tier == "thorough" { 40_000 } else { 400 }
     }
     fn gen_case(&self, seed: u64, _idx: usize, tier: &str, avoid: &[String]) -> Case {
         let mut rng = Rng::new(seed, "workload");
